@@ -1,6 +1,7 @@
 package main
 
 import (
+	"bytes"
 	"encoding/hex"
 	"strings"
 	"sync"
@@ -150,6 +151,47 @@ func renderings(kind string, net *chaincfg.Params, a bchutil.Address) []string {
 	return []string{s, strings.ToUpper(s), pre + ":" + s, strings.ToUpper(pre + ":" + s)}
 }
 
+// accessorObs: the typed accessors (Hash160 / Hash256 / PubKey / Format) agree with the script payload; "" when they do
+func accessorObs(ad bchutil.Address) string {
+	sa := ad.ScriptAddress()
+	switch v := ad.(type) {
+	case *bchutil.AddressPubKeyHash:
+		if !bytes.Equal(v.Hash160()[:], sa) {
+			return "!hash160"
+		}
+	case *bchutil.AddressScriptHash:
+		if !bytes.Equal(v.Hash160()[:], sa) {
+			return "!hash160"
+		}
+	case *bchutil.AddressScriptHash32:
+		if !bytes.Equal(v.Hash256()[:], sa) {
+			return "!hash256"
+		}
+	case *bchutil.LegacyAddressPubKeyHash:
+		if !bytes.Equal(v.Hash160()[:], sa) {
+			return "!hash160"
+		}
+	case *bchutil.LegacyAddressScriptHash:
+		if !bytes.Equal(v.Hash160()[:], sa) {
+			return "!hash160"
+		}
+	case *bchutil.AddressPubKey:
+		var want []byte
+		switch v.Format() {
+		case bchutil.PKFUncompressed:
+			want = v.PubKey().SerializeUncompressed()
+		case bchutil.PKFCompressed:
+			want = v.PubKey().SerializeCompressed()
+		case bchutil.PKFHybrid:
+			want = v.PubKey().SerializeHybrid()
+		}
+		if !bytes.Equal(want, sa) {
+			return "!pubkey/format"
+		}
+	}
+	return ""
+}
+
 func execAddr(c Case) string {
 	a := c.Args
 	switch c.Op {
@@ -159,7 +201,7 @@ func execAddr(c Case) string {
 		if err != nil || isNilAddr(ad) {
 			return "ctorerr"
 		}
-		out := []string{hs(ad.EncodeAddress()), hs(ad.String()), hx(ad.ScriptAddress()), netBits(ad)}
+		out := []string{hs(ad.EncodeAddress()), hs(ad.String()), hx(ad.ScriptAddress()) + accessorObs(ad), netBits(ad)}
 		for _, r := range renderings(a[0], net, ad) {
 			d, err := bchutil.DecodeAddress(r, net)
 			out = append(out, decObs(d, err))
@@ -258,6 +300,17 @@ func execAddr(c Case) string {
 		registerCollidingNet()
 		d, err := bchutil.DecodeAddress(string(unhx(a[1])), netIdx(a[0]))
 		return decObs(d, err)
+	case "pkfmt": // pkfmt <net> <serialized pubkey>: SetFormat to each of the three formats in turn, then back
+		ad, err := bchutil.NewAddressPubKey(unhx(a[1]), netIdx(a[0]))
+		if err != nil || ad == nil {
+			return "ctorerr"
+		}
+		out := []string{itoa(int(ad.Format()))}
+		for _, f := range []bchutil.PubKeyFormat{bchutil.PKFUncompressed, bchutil.PKFCompressed, bchutil.PKFHybrid, bchutil.PKFUncompressed} {
+			ad.SetFormat(f)
+			out = append(out, itoa(int(ad.Format()))+","+hx(ad.ScriptAddress())+","+hs(ad.EncodeAddress())+","+hs(ad.String())+","+hs(ad.AddressPubKeyHash().EncodeAddress())+accessorObs(ad))
+		}
+		return strings.Join(out, " ")
 	case "pm":
 		return u64s(hk_bchutil_PolyMod(unhx(a[0])))
 	case "cb":
@@ -524,6 +577,9 @@ func genC01(r *Rng, tier string, emit func(Case)) {
 			return genHashes(r, r.Pick(20, 20, 20, 32))
 		}()), itoa(r.Intn(len(nets))))
 		e("pk2pkh", "rand", itoa(ni), hx(serPub(pub, r.Intn(3))))
+		if i%4 == 0 {
+			e("pkfmt", "setformat", itoa(ni), hx(serPub(pub, r.Intn(3))))
+		}
 		// white-box kernels
 		e("pm", "rand", hx(to5(r.Bytes(r.Intn(40)), 0)))
 		d := r.Bytes(r.Intn(40))
